@@ -750,10 +750,10 @@ pub fn recursion_programs() -> Vec<(String, String)> {
     v.push(("loop : (int -> int) = (n : int) => loop n; if 1 < 2 then 7 else loop 1".into(), "7".into()));
     v.push(("x : int = 1 / 0; 3".into(), "division by zero".into()));
     v.push(("f : (int -> int) = (n : int) => 1 / n; x : int = 5; 2".into(), "2".into()));
-    if let Ok(s) = std::fs::read_to_string(format!("{}/examples/factorial.g", crate::infra::REPO_DIR)) {
+    if let Ok(s) = std::fs::read_to_string(format!("{}/examples/factorial.g", crate::infra::repo_dir())) {
         v.push((s, "265252859812191058636308480000000".into()));
     }
-    if let Ok(s) = std::fs::read_to_string(format!("{}/examples/identity.g", crate::infra::REPO_DIR)) {
+    if let Ok(s) = std::fs::read_to_string(format!("{}/examples/identity.g", crate::infra::repo_dir())) {
         v.push((s, "3".into()));
     }
     v
